@@ -250,6 +250,19 @@ def body(ctx, m):
     l3 = ctx.must("import_raises", load, m2, y2)
     y3 = ctx.must("export_raises", l3.to_pagexml_string, version=other)
     ctx.check(strip_ts(y2) == strip_ts(y3), "export_not_a_fixpoint_other_version", lambda: "%s\n---\n%s" % (y2[:3000], y3[:3000]))
+    # --- a loaded page that is edited in place (an editor moving a region, a de-skew step) must not leak into later imports
+    victim = ctx.must("import_raises", load, m, x1)
+    for reg in victim.regions:
+        for arr in [reg.polygon] + [a for l in reg.lines for a in (l.baseline, l.polygon)]:
+            if isinstance(arr, np.ndarray) and arr.size:
+                arr += 977
+        for l in reg.lines:
+            if isinstance(l.heights, list) and l.heights:
+                l.heights[0] = 123.0
+    again = ctx.must("import_raises", load, m, x1)
+    x_again = ctx.must("export_raises", again.to_pagexml_string, version=version)
+    ctx.check(strip_ts(x_again) == strip_ts(x2), "import_depends_on_edits_of_an_earlier_import",
+              lambda: "the same document imported again after an earlier import had been edited in place:\n%s\n---\n%s" % (x_again[:2500], x2[:2500]))
     # --- classification ------------------------------------------------
     lines = [l for r in m["regions"] for l in r["lines"]]
     texts = [l["transcription"] or "" for l in lines] + [r["text"] or "" for r in m["regions"]]
